@@ -595,6 +595,30 @@ pub fn gen_c07(rng: &mut Rng, _i: u64, tier: Tier) -> Script {
             }
         }
         s.set("hasmore", rng.pick(&[0i64, 0, 0, 0, 1]));
+    } else if stream.len() > 700 && rng.chance(1, 3) {
+        // larger stream: a window of one-byte deliveries (around the end, the start, or anywhere)
+        s.set("entry", 0);
+        let ring = rng.chance(1, 2);
+        s.set("mode", ring as i64);
+        if ring {
+            let minb = vs.as_ref().map(|v| min_ring_bits(v.max_dist, zlib, v.cinfo)).unwrap_or(8).max(8);
+            let bits = if rng.chance(1, 3) { 15 } else { rng.range(minb.min(16), 16) };
+            s.set("ring_bits", bits as i64);
+            s.set("ringfill", rng.below(1 << 30) as i64);
+        } else {
+            s.set("cap_extra", rng.pick(&[1i64, 2, 259, 600]));
+        }
+        s.set("family", 8);
+        let n = stream.len();
+        let wl = rng.pick(&[300usize, 2000, 2000, 6000]).min(n);
+        let from = match rng.below(4) {
+            0 => 0,
+            1 => n - wl,
+            _ => rng.usize_below(n - wl + 1),
+        };
+        s.set("sweep_from", from as i64);
+        s.set("sweep_window", wl as i64);
+        s.set("hasmore", rng.pick(&[0i64, 0, 0, 1]));
     } else {
         let e = pick_entry(rng, &[(0, 36), (10, 36), (1, 18), (3, 10)]);
         set_entry(&mut s, rng, e, vs.as_ref(), zlib, n_in);
